@@ -74,8 +74,8 @@ namespace {
     std::string format(const T& when) {
       std::tm data(to_tm(when));
       char buf[128];
-      std::strftime(buf, 127, fmt_str.c_str(), &data);
-      return buf;
+      std::size_t len = std::strftime(buf, 127, fmt_str.c_str(), &data);
+      return std::string(buf, len);
     }
   };
 
